@@ -21,6 +21,21 @@ const WIDE: &[&str] = &[
     "SELECT array_unique(create_array(v, w, 3, 1, 2)), k FROM t",
 ];
 
+// names that differ only in letter case, and statements that spell them a third way: name resolution is exact, so
+// these are "not found" errors — unless a lookup falls back to scanning a hash map, whose order depends on the seed
+const CASE_TABLES: &str = "CREATE TABLE Sessions(line = '^([a-z]+);([0-9]+);([0-9]+)$', line[1] => Host TEXT, line[2] => id INT, line[3] => ID INT);\nCREATE TABLE SESSIONS(line = '^([a-z]+);([0-9]+);([0-9]+)$', line[1] => host TEXT, line[3] => Id INT);\nCREATE TABLE sessionS(line = '^([a-z]+)', line[1] => HOST TEXT);";
+const CASE_QUERIES: &[&str] = &[
+    "SELECT * FROM sessions",
+    "SELECT host FROM sessions",
+    "SELECT Id FROM Sessions",
+    "SELECT HOST, iD FROM Sessions",
+    "SELECT Host, id, ID FROM Sessions",
+    "SELECT COUNT(*), MAX(Id) FROM Sessions",
+    "SELECT Host, COUNT(iD) FROM Sessions GROUP BY Host",
+    "SELECT host, COUNT(*) FROM sESSIONS GROUP BY host",
+    "SELECT * FROM Sessions WHERE Id > 3",
+];
+
 pub struct Case { pub defs: String, pub query: String, pub files: Vec<Vec<u8>>, pub joined: Vec<u8> }
 
 /// the deterministic list of cases (a function of the seed only), so that children regenerate the same ones
@@ -30,6 +45,12 @@ pub fn cases(seed: u64, n: usize, join_path: &str) -> Vec<Case> {
     let jlines: Vec<String> = (0..12).map(|_| gen_join_line(&mut rng)).collect();
     let joined = join_lines(&jlines);
     for i in 0..n {
+        if i % 8 == 7 {
+            let nl = 3 + rng.below(6);
+            let lines: Vec<String> = (0..nl).map(|_| format!("{};{};{}", rng.pick(&["web", "alpha", "db"]), rng.below(9), 10 + rng.below(9))).collect();
+            out.push(Case { defs: CASE_TABLES.to_owned(), query: (*rng.pick(CASE_QUERIES)).to_owned(), files: vec![join_lines(&lines)], joined: joined.clone() });
+            continue;
+        }
         let sch = gen_schema(&mut rng);
         let query = if i % 3 == 0 {
             (*rng.pick(WIDE)).to_owned()
